@@ -90,7 +90,7 @@ func mainEngine(o *Out, scnFile string, seed int64, count int, modes string, var
 			}
 		}
 		for li, line := range lines {
-			if (li+int(seed))%step != 0 {
+			if (li+int(seed))%step != 0 || tooManyHangs() {
 				continue
 			}
 			base := parseEngineCfg(asMap(line["cfg"]))
